@@ -169,6 +169,18 @@ func c08Scenario(r *Rng, i int, base map[string]json.RawMessage, palette []json.
 		extras = append(extras, map[string]any{"uuid": us.next(), "type": "set_contact_field", "field": map[string]any{"key": "nope", "name": "Nope"}, "value": c08Tpl("@webhook.x")})
 		shapeBits = append(shapeBits, "issues")
 	}
+	hasLocations := false
+	if r.Chance(35) {
+		// places of the same name under different parents, looked up under each parent in turn
+		hasLocations = true
+		order := Pick(r, [][]string{{"State Two", "State One", "State Three"}, {"State Three", "State Two", "State One"}, {"State One", "State Two", "State One"}})
+		var parts []string
+		for _, st := range order {
+			parts = append(parts, fmt.Sprintf(`@(has_district("Springfield", "%s").match)`, st), fmt.Sprintf(`@(has_ward("Downtown", "Springfield", "%s").match)`, st))
+		}
+		extras = append(extras, map[string]any{"uuid": us.next(), "type": "send_msg", "text": "where: " + strings.Join(parts, " / ") + ` @(has_state("One").match)`})
+		shapeBits = append(shapeBits, "same-name-places")
+	}
 	if r.Chance(40) {
 		// a message template whose first variable's value looks like the second placeholder
 		extras = append(extras, map[string]any{"uuid": us.next(), "type": "send_msg", "text": "tpl", "template": map[string]any{"uuid": "5722e1fd-fe32-4e74-ac78-3cf41a6adb7e", "name": "affirmation"},
@@ -210,6 +222,12 @@ func c08Scenario(r *Rng, i int, base map[string]json.RawMessage, palette []json.
 		all[k] = v
 	}
 	all["flows"] = []any{main}
+	if hasLocations {
+		all["locations"] = json.RawMessage(`[{"name": "Freedonia", "aliases": [], "children": [
+			{"name": "State One", "aliases": ["One"], "children": [{"name": "Springfield", "children": [{"name": "Downtown"}, {"name": "Harbor"}]}, {"name": "Shelbyville", "children": []}]},
+			{"name": "State Two", "aliases": ["Two"], "children": [{"name": "Springfield", "children": [{"name": "Downtown"}]}, {"name": "Ogdenville", "children": []}]},
+			{"name": "State Three", "aliases": [], "children": [{"name": "Springfield", "children": [{"name": "Harbor"}]}]}]}]`)
+	}
 	assetsJSON, _ = json.Marshal(all)
 	return assetsJSON, flowUUID, strings.Join(shapeBits, ",")
 }
@@ -251,6 +269,26 @@ func c08Execute(assetsJSON []byte, flowUUID string, seed int64, inputs []string,
 	out["inspect"] = string(ib)
 	fb, _ := json.Marshal(f)
 	out["definition"] = string(fb)
+	// the run itself, twice over the same assets object (as a host that keeps its assets between sessions does): the second
+	// session must see what the first saw - nothing a session does may be left behind in the assets
+	first := c08RunOnce(env, sa, flowUUID, seed, inputs, restart)
+	for k, v := range first {
+		out[k] = v
+	}
+	if c08SeenBefore {
+		return out, nil // C02 uses the scenarios for its own comparison
+	}
+	second := c08RunOnce(env, sa, flowUUID, seed, inputs, restart)
+	out["second-session-over-same-assets"] = "same"
+	if what, a, b := firstDiff(first, second); what != "" {
+		x, y := diffWindow(a, b)
+		out["second-session-over-same-assets"] = fmt.Sprintf("differs in %s: first %s / second %s", what, x, y)
+	}
+	return out, nil
+}
+
+func c08RunOnce(env envs.Environment, sa flows.SessionAssets, flowUUID string, seed int64, inputs []string, restart bool) c08Out {
+	out := c08Out{}
 	restore := setDeterministic(seed)
 	defer restore()
 	eng := test.NewEngine()
@@ -272,7 +310,7 @@ func c08Execute(assetsJSON []byte, flowUUID string, seed int64, inputs []string,
 	s, sp, err := eng.NewSession(sa, trig)
 	if err != nil {
 		out["start-error"] = err.Error()
-		return out, nil
+		return out
 	}
 	evs := func(sp flows.Sprint) string {
 		b, _ := json.Marshal(sp.Events())
@@ -310,7 +348,7 @@ func c08Execute(assetsJSON []byte, flowUUID string, seed int64, inputs []string,
 	}
 	sb, _ := json.Marshal(s)
 	out["session"] = string(sb)
-	return out, nil
+	return out
 }
 
 // migration, cloning and reading of one stored definition
@@ -403,6 +441,37 @@ func c08Definitions() (names []string, defs [][]byte) {
 		if json.Unmarshal(h, &doc) != nil {
 			continue
 		}
+		// the same with a "base" entry beside the base language's own in every translated text (flows that were given a language
+		// later keep both): which of the two is the base text must not depend on the order a map is walked in
+		{
+			var withBase any
+			json.Unmarshal(h, &withBase)
+			changed := false
+			var walk func(v any)
+			walk = func(v any) {
+				switch x := v.(type) {
+				case map[string]any:
+					if t, ok := x["eng"].(string); ok {
+						if _, has := x["base"]; !has {
+							x["base"] = t + " (base)"
+							changed = true
+						}
+					}
+					for _, c := range x {
+						walk(c)
+					}
+				case []any:
+					for _, c := range x {
+						walk(c)
+					}
+				}
+			}
+			walk(withBase)
+			if changed {
+				v, _ := json.Marshal(withBase)
+				add(fmt.Sprintf("legacy-holder#%d+base-entries", k), v)
+			}
+		}
 		rss, _ := doc["rule_sets"].([]any)
 		if len(rss) == 0 {
 			continue
@@ -481,6 +550,11 @@ func runC08(c *Ctx) {
 		plans = append(plans, c08Plan{a, fu, shape, inputs, int64(i), r.Bool()})
 	}
 	names, defs := c08Definitions()
+	for _, nm := range names {
+		if strings.HasSuffix(nm, "+base-entries") {
+			c.Dist["defs-with-base-entries"]++
+		}
+	}
 	envQ := envs.NewBuilder().Build()
 	queryOut := func(q string) string {
 		pq, err := contactql.ParseQuery(envQ, q, nil)
@@ -535,6 +609,11 @@ func runC08(c *Ctx) {
 			}
 			if k == 0 {
 				first = o
+				c.Count("check:M-assets-reuse")
+				if v := o["second-session-over-same-assets"]; v != "same" && v != "" {
+					desc["second_session"] = v
+					c.Fail("monitor", "M-assets-reuse", "second-session-differs", "a second, identical session over the same assets object does not produce what the first produced: the first left something behind in the assets", desc)
+				}
 				continue
 			}
 			if what, a, b := firstDiff(first, o); what != "" {
@@ -565,7 +644,11 @@ func runC08(c *Ctx) {
 	for i := range defs {
 		desc := map[string]any{"definition": names[i]}
 		var first c08Out
-		for k := 0; k < reps; k++ {
+		nreps := reps
+		if strings.HasSuffix(names[i], "+base-entries") {
+			nreps = 10 * reps // small definitions whose only purpose is an order dependence: a walk order repeats often
+		}
+		for k := 0; k < nreps; k++ {
 			var o c08Out
 			if c.Guard("M-migrate-repeat", "panic:migrate", desc, func() { o = c08Definition(names[i], defs[i]) }) {
 				break
